@@ -115,6 +115,38 @@ pub fn eval(op: &str, input: &mut Value) -> OpResult {
       v["lines_joined"] = Value::String(shown);
       Ok(v)
     }
+    // C04, decoding clause: the support crate's `json_with_diagnostics` on an in-memory reqwest::Response
+    "lex.decode" => {
+      use oas3_gen_support::Diagnostics;
+      #[derive(serde::Deserialize, serde::Serialize)]
+      #[serde(deny_unknown_fields)]
+      struct Pet {
+        name: String,
+      }
+      let body = input["body"].as_str().ok_or("no body")?.to_string();
+      let typed = input["ty"].as_str() == Some("pet");
+      let mk = |b: String| {
+        reqwest::Response::from(
+          http::Response::builder()
+            .status(200)
+            .header("content-type", "application/json")
+            .body(b)
+            .unwrap(),
+        )
+      };
+      let rt = tokio::runtime::Builder::new_current_thread().build().map_err(|e| e.to_string())?;
+      let out = if typed {
+        let r: Result<Pet, _> = rt.block_on(mk(body).json_with_diagnostics());
+        r.map(|p| serde_json::to_value(p).unwrap()).map_err(|e| e.to_string())
+      } else {
+        let r: Result<Value, _> = rt.block_on(mk(body).json_with_diagnostics());
+        r.map_err(|e| e.to_string())
+      };
+      Ok(match out {
+        Ok(v) => json!({"ok": v}),
+        Err(e) => json!({"err": e}),
+      })
+    }
     _ => Err(format!("unknown-op:{op}")),
   }
 }
